@@ -209,6 +209,34 @@ def _l3_merge(n1: int, n2: int, a0: int, a1: int, b0: int, b1: int, c0: int, c1:
     return got == exp
 
 
+def _l3b_merge_two_files(n1: int, n2: int, a0: int, a1: int, b0: int, b1: int, c0: int, c1: int, d0: int, d1: int, order: bool) -> bool:
+    """
+    pre: 0 <= n1 <= 2 and 0 <= n2 <= 2
+    pre: 0 <= a0 <= 1 and 0 <= a1 <= 1 and 0 <= b0 <= 1 and 0 <= b1 <= 1
+    pre: 1 <= c0 and 1 <= c1 and 1 <= d0 and 1 <= d1
+    post: _
+    """
+    # generate_commands accepts a LIST of BAM files: the jobs of two files cover the SAME bins, possibly for the same cell
+    # (one library sequenced on two lanes). Merged in either arrival order the table must hold the sum per bin and cell.
+    BINS = [('chr1', 0, 2), ('chr1', 2, 4)]
+    CELLS = ['cellA', 'cellB']
+    r1 = {}
+    for i, (s, c) in enumerate([(a0, c0), (a1, c1)][:n1]):
+        r1.setdefault(BINS[i], {})[pick(CELLS, s)] = c
+    r2 = {}
+    for i, (s, c) in enumerate([(b0, d0), (b1, d1)][:n2]):
+        r2.setdefault(BINS[i], {})[pick(CELLS, s)] = c
+    exp = {}
+    for r in (r1, r2):
+        for bid, sd in r.items():
+            for cell, c in sd.items():
+                exp.setdefault(bid, {})
+                exp[bid][cell] = exp[bid].get(cell, 0) + c
+    first, second = (r1, r2) if order else (r2, r1)
+    got = _merge(_merge({}, {k: dict(v) for k, v in first.items()}), {k: dict(v) for k, v in second.items()})
+    return {k: dict(v) for k, v in got.items()} == exp
+
+
 _T = {'quick': 240, 'thorough': 1200}
 LEMMAS = [
     dict(name='L1_geometry_all_partitions', fn='_l1_geometry', engine='E1', timeout=_T, replay='replay.C12:replay',
@@ -218,11 +246,12 @@ LEMMAS = [
     dict(name='L4_two_files_same_contig_name', fn='_l4_two_files', engine='E1', timeout=_T, replay='replay.C12:replay'),
     dict(name='L5_two_reads_megabase_scale', fn='_l5_two_reads', engine='E1', timeout=_T, replay='replay.C12:replay',
          cases={'quick': [dict(id='b%d' % i, pre=['bi == %d' % i]) for i in range(4)]}),
+    dict(name='L3b_merge_two_files_same_bins', fn='_l3b_merge_two_files', engine='E1', timeout=_T, replay='replay.C12:replay'),
     dict(name='L3_merge_order', fn='_l3_merge', engine='E1', timeout=_T, replay='replay.C12:replay'),
 ]
 
 PROPERTY = dict(
-    functions=['bamBinCounts.generate_jobs / generate_commands / count_fragments_binned / read_counts', 'merge loop of bamBinCounts.obtain_counts (AST cut)',
+    functions=['bamBinCounts.generate_jobs / generate_commands / count_fragments_binned / read_counts', 'merge loop of bamBinCounts.obtain_counts (AST cut; disjoint bins of one file, and identical bins of two files)',
                'bamFunctions.get_contig_size / get_contig_sizes'],
     bounds={'quick': dict(contig='length 1..7 (at most 3 jobs)', bin_size='1..3', bins_per_job='1..3', max_fragment_size='unbounded >= 0',
                           read='one read: start / length 1..3 inside the contig, DS present or absent, a valid coordinate of the contig with distance(DS, read span) <= max_fragment_size, read1 / qcfail / duplicate / mp (absent, unique, multi) / MAPQ / threshold / dedup symbolic, optional key tag'),
